@@ -22,9 +22,9 @@ class C07(Check):
         """one fixed experiment per listed known finding, so that each is demonstrated (or seen fixed) on every run"""
         simple = {"sched": {"seed": 0, "policy": "fifo", "line_p": 0.0}, "workers": None, "enum_seed": None, "hashseed": 0}
         out = []
-        for cid, sn in (("pixee:python/flask-json-response-type", [463, 464]), ("pixee:python/harden-pyyaml", [502, 485]),
-                        ("pixee:python/order-imports", [757, 763])):
-            out.append({"kind": "fixed:known", "world_spec": {"files": [{"path": "pkg/two.py", "snippets": sn, "layout": {}}]}, "include": [cid],
+        for cid, sn in (("pixee:python/flask-json-response-type", [463, 464]), ("pixee:python/harden-pyyaml", [502, 485])):
+            path = "deep/er/and/deeper/views.py" if cid.endswith("order-imports") else "pkg/two.py"  # isort looks at the location
+            out.append({"kind": "fixed:known", "world_spec": {"files": [{"path": path, "snippets": sn, "layout": {}}]}, "include": [cid],
                         "plugins": False, "path_include": None, "extra_findings": {}, "runs": [simple, simple]})
         return out
 
